@@ -27,7 +27,7 @@ TInit ==
     /\ now = 0 /\ socks = << >> /\ cur = 0 /\ closing = FALSE /\ closedF = FALSE /\ secureF = FALSE
     /\ shutdownF = FALSE /\ lock = FALSE /\ ref = 0 /\ tasks = [t \in TaskIds |-> DeadTask]
     /\ hosts = ToSet(Traces[tid].hosts) /\ descr = {} /\ failed = {} /\ nxUsed = {}
-    /\ callers = [c \in Callers |-> IdleCaller] /\ attempts = 0 /\ userClosed = "open" /\ subsOk = TRUE
+    /\ callers = [c \in Callers |-> IdleCaller] /\ attempts = 0 /\ userClosed = "open" /\ subsOk = TRUE /\ authEnded = FALSE
 
 \* ---- task steps: a step that enters start_connection emits tcp_call, the step that receives the
 \* socket emits tcp_ok, every other step is silent
